@@ -96,7 +96,7 @@ pub fn run(ctx: &Arc<Ctx>) {
     refmodels::selftest::run(&["sm3", "sm2"]).unwrap_or_else(|e| ctx.machinery_error(format!("reference self-test failed: {}", e)));
     let n = sm2::params().n.clone();
     let p = sm2::params().p.clone();
-    ctx.set_rule("for each base signature (quick 12, thorough 60: keys x nonces x IDs x messages from the C03 alphabets, made by the reference signer): all 512 single-bit flips of r||s; r,s substituted by {0,1,n-1,n,n+1,2^256-1}, s=n-r, swapped; (r+delta, s') completed with the private key so that the verification point is unchanged, delta in {+-1, +-(p-n), +-(2^256-n), +-(2^256-p)}; the public key held as a Jacobian key object (Z in {2, p-1, seeded}); message bit flipped / byte appended / truncated, or replaced by the intermediate values e = SM3(Z_A||M), Z_A||M, Z_A, SM3(M) (also on messages of 2^16+5 bytes and 4 MiB+17 bytes, changed at the end, in the middle and after the first block); ID changed (also to normalisation-equivalent spellings: trailing / leading white space, line end, NUL, case; and to IDs longer than 8191 bytes sharing the signer's prefix); key replaced by another key and by -P; every signature length 0..=130 as prefix/extension and constant fills, and lengths 64 + 256k, 64 + 65536 with neighbours; plus the product RxS of a 12-element boundary alphabet; pre-searched messages whose digest e is >= n; key objects that hold the point at infinity or a point off the curve (affine and Jacobian), with signatures forged for the verification point [s]G; pre-searched signatures with r or s below 2^224 and their r+n / s+n aliases. Oracle: the reference verifier (and 'exactly 64 bytes'); library must return Err whenever it rejects — never Ok, never a panic — and Ok when it accepts.");
+    ctx.set_rule("for each base signature (quick 12, thorough 60: keys x nonces x IDs x messages from the C03 alphabets, made by the reference signer): all 512 single-bit flips of r||s; r,s substituted by {0,1,n-1,n,n+1,2^256-1}, s=n-r, swapped; (r+delta, s') completed with the private key so that the verification point is unchanged, delta in {+-1, +-(p-n), +-(2^256-n), +-(2^256-p)}; the public key held as a Jacobian key object (Z in {2, p-1, seeded}); message bit flipped / byte appended / truncated, or replaced by the intermediate values e = SM3(Z_A||M), Z_A||M, Z_A, SM3(M) (also on messages of 2^16+5 bytes and 4 MiB+17 bytes, changed at the end, in the middle and after the first block); ID changed (also to normalisation-equivalent spellings: trailing / leading white space, line end, NUL, case; and to IDs longer than 8191 bytes sharing the signer's prefix); key replaced by another key and by -P; every signature length 0..=130 as prefix/extension and constant fills, and lengths 64 + 256k, 64 + 65536 with neighbours; the valid (r, s) re-encoded as DER SEQUENCE { r, s }, as hex text, doubled, or with a leading 00 / 04; signatures searched so that r||s starts with 30 3e or r + s has 16 clear low bits; plus the product RxS of a 12-element boundary alphabet; pre-searched messages whose digest e is >= n; key objects that hold the point at infinity or a point off the curve (affine and Jacobian), with signatures forged for the verification point [s]G; pre-searched signatures with r or s below 2^224 and their r+n / s+n aliases. Oracle: the reference verifier (and 'exactly 64 bytes'); library must return Err whenever it rejects — never Ok, never a panic — and Ok when it accepts.");
     let ds = scalar_alphabet(&n, ctx.seed, "c04d", 2);
     let ks = scalar_alphabet(&n, ctx.seed, "c04k", 1);
     let nbase = ctx.tier.pick(12usize, 160);
@@ -370,6 +370,36 @@ pub fn run(ctx: &Arc<Ctx>) {
         ctx.cov("messages_with_digest_e_ge_n", serde_json::json!(ok));
         if ok == 0 {
             ctx.machinery_error("corpus/sm2_big_e.json missing or not reproduced by the reference");
+        }
+    }
+    // signatures of a particular shape (r||s starting like a DER SEQUENCE; r + s with 16 clear low bits): valid ones are accepted,
+    // their neighbours refused. And the valid (r, s) of the first base signature in other encodings - DER SEQUENCE { r, s }
+    // (70..72 bytes), lower- and upper-case hex text (128 bytes), r||s||r||s - none of which is "exactly 64 bytes"
+    {
+        let (d, k) = (hb(crate::alpha::ANNEX_D), hb(crate::alpha::ANNEX_K));
+        let pk = sm2::g_mul(&d);
+        let pkh = hex::encode(sm2::encode_point(&pk, false));
+        let mk = |sig: String, m: &[u8], label: &str| Case { pk: pkh.clone(), id: None, msg: hex::encode(m), sig, label: label.to_string(), lambda: None, inf: None, raw: None };
+        let mut shapes = crate::c03::signature_shapes();
+        shapes.push(("ordinary".into(), "message digest".into()));
+        for (kind, msg) in &shapes {
+            let e = sm2::digest_e(sm2::DEFAULT_ID, &pk, msg.as_bytes());
+            let Some((r, s)) = sm2::sign_with_k(&d, &e, &k) else { continue };
+            cases.push(mk(sig_bytes(&r, &s), msg.as_bytes(), "valid"));
+            let mut f = hex::decode(sig_bytes(&r, &s)).unwrap();
+            f[63] ^= 1;
+            cases.push(mk(hex::encode(&f), msg.as_bytes(), &format!("signature-shape/{}/bitflip-s", kind)));
+            let mut m2 = msg.as_bytes().to_vec();
+            m2[0] ^= 1;
+            cases.push(mk(sig_bytes(&r, &s), &m2, &format!("signature-shape/{}/msg-bitflip", kind)));
+            let der = refmodels::der::sequence(&[refmodels::der::integer(&r), refmodels::der::integer(&s)]);
+            cases.push(mk(hex::encode(&der), msg.as_bytes(), "other-encoding/DER-SEQUENCE{r,s}"));
+            let raw = hex::decode(sig_bytes(&r, &s)).unwrap();
+            cases.push(mk(hex::encode(sig_bytes(&r, &s).as_bytes()), msg.as_bytes(), "other-encoding/hex-text"));
+            cases.push(mk(hex::encode(sig_bytes(&r, &s).to_uppercase().as_bytes()), msg.as_bytes(), "other-encoding/hex-text"));
+            cases.push(mk(hex::encode([raw.clone(), raw.clone()].concat()), msg.as_bytes(), "other-encoding/r||s-twice"));
+            cases.push(mk(hex::encode([vec![0u8], raw.clone()].concat()), msg.as_bytes(), "other-encoding/leading-00"));
+            cases.push(mk(hex::encode([vec![0x04u8], raw.clone()].concat()), msg.as_bytes(), "other-encoding/leading-04"));
         }
     }
     // call sequences over related inputs on one thread: two keys x two IDs, valid and altered, in every order
